@@ -1093,7 +1093,8 @@ namespace xsimd
     template <class T>
     XSIMD_INLINE typename std::enable_if<std::is_floating_point<T>::value, T>::type fnms(const T& a, const T& b, const T& c) noexcept
     {
-        return -std::fma(a, b, c);
+        // -(a * b) - c, not -(a * b + c): the two differ by the sign of a zero result
+        return std::fma(-a, b, -c);
     }
 
     namespace detail
